@@ -358,6 +358,9 @@ def c13(run):
     mc_and_replay(run, "flat1", 5 if q else 6, ["Released"], ["core"], cap=1500 if q else 20000)
     # slab occupancy after every settle, on the repository's own tests (ExecProtocol.tla)
     proto_suite(run)
+    # hand-written inputs: a request that is made and dropped before it is ever polled (select with an earlier
+    # leaf ready) must let go of its operation -- through the command API, the capability API and both mixed
+    regress_round(run, "core")
     # many different programs with aborts and drops, medium length (occupancy after every call)
     random_round(run, "broad", run.seed + 9, 900 if q else 9000, ["direct", "core", "bridge_bin"], "mixed", 3, 30)
     # requests spent by an undecodable response must be forgotten as well
